@@ -221,18 +221,22 @@ class PITConv1d(nn.Conv1d, PITModule):
                             mod.get_submodule(str(inp.target)), nn.ConstantPad1d):
                         continue
                     found = True
-                    if inp.target == str(n.target) + "_pad":
-                        break  # already its own padding
+                    old_pad = cast(nn.ConstantPad1d, mod.get_submodule(str(inp.target)))
+                    if old_pad is new_pad:
+                        break  # already adjusted (two call sites behind one padding module)
+                    new_pad.value = old_pad.value  # the constant the user pads with
                     pad_sites = [m for m in mod.graph.nodes
                                  if m.op == 'call_module' and m.target == inp.target]
                     shared = any(u.op != 'call_module' or u.target != n.target
                                  for m in pad_sites for u in m.users)
                     if shared:
-                        mod.add_submodule(str(n.target) + "_pad", new_pad)
+                        own_name = str(n.target) + "_pad"
+                        while own_name in dict(mod.named_modules()) and \
+                                mod.get_submodule(own_name) is not new_pad:
+                            own_name += "_"
+                        mod.add_submodule(own_name, new_pad)
                         with mod.graph.inserting_before(site):
-                            new_node = mod.graph.call_module(
-                                str(n.target) + "_pad",
-                                args=inp.args)
+                            new_node = mod.graph.call_module(own_name, args=inp.args)
                         site.replace_input_with(inp, new_node)
                     else:
                         mod.add_submodule(str(inp.target), new_pad)
